@@ -476,6 +476,11 @@ class SplitMix:
     def bytes(self, n):
         return bytes(self.below(256) for _ in range(n))
 
+    def shuffle(self, xs):
+        for i in range(len(xs) - 1, 0, -1):
+            j = self.below(i + 1)
+            xs[i], xs[j] = xs[j], xs[i]
+
 
 def run_pair(harness_exe, mode, cases_text, workdir, timeout=600, env=None):
     """Run implementation harness and extracted model on the same case file.
